@@ -69,6 +69,7 @@ type Case struct {
 	Engine string    `json:"engine"`
 	Alloc  string    `json:"alloc"`         // default | guard | guard-moving
 	Mem    string    `json:"mem,omitempty"` // "" = the module defines its memory | "imported" = another instance ("owner") defines it
+	CapMax bool      `json:"capacity_from_max,omitempty"` // WithMemoryCapacityFromMax(true): the buffer is allocated up to the maximum at once (an allocator may still move it)
 	Shared bool      `json:"shared,omitempty"` // the memory is a shared one (threads proposal): never moved, allocated up to its maximum at once
 }
 
@@ -605,7 +606,7 @@ func RunCase(c *Case) string {
 		ictx = experimental.WithMemoryAllocator(ctx, ga)
 		defer ga.Release()
 	}
-	rt := wazero.NewRuntimeWithConfig(ictx, wz.Config(c.Engine))
+	rt := wazero.NewRuntimeWithConfig(ictx, wz.Config(c.Engine).WithMemoryCapacityFromMax(c.CapMax))
 	defer rt.Close(ctx)
 	_, err := rt.NewHostModuleBuilder("env").NewFunctionBuilder().WithGoModuleFunction(api.GoModuleFunc(func(ctx context.Context, mod api.Module, stack []uint64) {
 		mod.Memory().Grow(uint32(stack[0]))
@@ -1022,6 +1023,9 @@ func prop(t *rapid.T) {
 		c.Mem = "imported"
 	}
 	c.Alloc = pick(t, "alloc", []string{"default", "guard", "guard", "guard-moving"})
+	if c.Max >= 0 && c.Max <= 64 && uni(t, 3, "capmax") == 2 {
+		c.CapMax = true
+	}
 	if !big && uni(t, 5, "sharedmem") == 4 {
 		// a shared memory needs a maximum; its buffer never moves and extends to the maximum, so
 		// the bytes between the current size and the maximum exist in the host buffer
@@ -1087,6 +1091,9 @@ func prop(t *rapid.T) {
 	if c.Shared {
 		lbl = append(lbl, "shared-memory")
 	}
+	if c.CapMax {
+		lbl = append(lbl, "capacity-from-max")
+	}
 	if strings.Contains(flat, "callgrow") {
 		lbl = append(lbl, "grow-in-callee")
 	}
@@ -1111,7 +1118,7 @@ func prop(t *rapid.T) {
 	default:
 		lbl = append(lbl, "accesses-completed=0")
 	}
-	evid.Case(evid.Hash64(c.Pages, c.Max, fmt.Sprint(c.Params), flat, c.Engine, c.Alloc, c.Shared, c.Mem), nt, lbl...)
+	evid.Case(evid.Hash64(c.Pages, c.Max, fmt.Sprint(c.Params), flat, c.Engine, c.Alloc, c.Shared, c.Mem, c.CapMax), nt, lbl...)
 	if nt {
 		evid.Sample("script", 2, c)
 	}
